@@ -367,8 +367,8 @@ MUTANTS = [
     M("c14-subscribe-start-first", BASE, "        if sub.prepare():\n            if self.authenticator",
       "        if sub.prepare():\n            sub.start()\n            if self.authenticator", "C14.query"),
     M("c14-subscribe-no-token", BASE, "                auth_token, Action.query.value, sub\n", "                None, Action.query.value, sub\n", "C14.query"),
-    M("c14-db-output-dropped", DB, "                if check_output(event, context):\n                    await queue.put((sub_id, event))",
-      "                check_output(event, context)\n                await queue.put((sub_id, event))", "C14.output"),
+    M("c14-db-output-dropped", DB, "                    if check_output(event, context):\n                        await queue.put((sub_id, event))",
+      "                    check_output(event, context)\n                    await queue.put((sub_id, event))", "C14.output"),
     M("c14-kv-output-dropped", KV, "                            if check_output(event, context):\n                                await queue_put((sub_id, event))\n                                counter[\"count\"] += 1",
       "                            await queue_put((sub_id, event))\n                            counter[\"count\"] += 1", "C14.output"),
     M("c14-can-do-early-true", AUTH, "        can_do = True\n        if self.is_enabled:", "        can_do = True\n        if auth_token and auth_token.get(\"pubkey\"):\n            return True\n        if self.is_enabled:", "C14.can_do"),
